@@ -71,6 +71,8 @@ class Ctx:
                 self.other[mon] = self.other.get(mon, 0) + 1
                 if not mon.startswith("DRIFT_") and not L.match_known(v, L.load_known(), mon[:3]):
                     self.unexplained[mon] = self.unexplained.get(mon, 0) + 1
+                    if os.environ.get("VF_DEBUG_OTHER") and self.unexplained[mon] <= 3:
+                        L.log("other:", mon, v.get("scen"), json.dumps(v.get("w"))[:200], v.get("line"))
         return viols
 
     def monitors(self):
@@ -361,6 +363,7 @@ def c06(ctx):
 def c11(ctx):
     reasm_component(ctx, "C11")
     files = xfer_traces(ctx, ["zwin", "pr", "lossy", "reorder", "il", "basic"], 160, 4000)
+    files += directed_traces(ctx, "zwdir", 6)
     # stream resets with a reader that has not read everything yet (known finding F23 reproduces here)
     files += reconfig_family(ctx, light=ctx.quick)
     ctx.validate(files)
